@@ -265,6 +265,44 @@ def h_ace(ctx):
     return None
 
 
+NAMED_CFG = [(p, v, pr) for p in ("ios", "nxos") for v in ("0", "15.2", "16.9", "9.3") for pr in ("tcp", "udp")]
+
+
+def h_named_ports(ctx):
+    """every keyword of the platform/version table as source and destination port of an ACE (by name and by number):
+    the rendered ACE must re-parse to the same text and data (the dst-port/option splitter uses its own name list)"""
+    from cisco_acl import Ace
+    from cisco_acl.port_name import PortName
+    platform, version, proto = ctx.pick("cfg", NAMED_CFG)
+    table = PortName(protocol=proto, platform=platform, version=version).names()
+    side = ctx.pick("side", ["src", "dst"])
+    op = ctx.pick("op", ["eq", "range"])
+    opt = ctx.pick("opt", ["", "log"])
+    kw = dict(platform=platform, version=version, port_nr=False)
+    cl = Claims(ctx)
+    n = 0
+    for name, nr in sorted(table.items()):
+        for spelled in (name, str(nr)):
+            port = f"eq {spelled}" if op == "eq" else f"range {spelled} 65000"
+            line = f"permit {proto} any {port} any" if side == "src" else f"permit {proto} any any {port}"
+            if opt:
+                line += " " + opt
+            o1 = Ace(line, **kw)
+            t1 = o1.line
+            try:
+                o2 = Ace(t1, **kw)
+            except ValueError:
+                cl(f"rendered-ace-accepted[{name},{spelled}]", True)
+                continue
+            n += 1
+            cl(f"text-fixpoint[{name},{spelled}]", o2.line != t1)
+            cl(f"data-fixpoint[{name},{spelled}]", Not_(deep_eq(o2.data(), o1.data())))
+    ctx.observe("n", n)
+    cl.done()
+    ctx.reach("named")
+    return None
+
+
 def _acl_inputs(ctx, indents=("", " ", "  ", "    ")):
     name, sel = ctx.pick("acl", ACLS)
     platform = ctx.pick("platform", ["ios", "nxos"])
@@ -272,6 +310,8 @@ def _acl_inputs(ctx, indents=("", " ", "  ", "    ")):
     indent = ctx.pick("indent", list(indents))
     w = AG.World(ctx)
     specs = [AG.TEMPLATES[name][i] for i in sel]
+    if AG.ios_only(specs):
+        platform = "ios"                    # multi-port entries exist on IOS only
     s0 = ctx.fresh("s0", 1, 4000000000) if numbered else 0
     seqs = [s0 + 7 * i for i in range(len(specs))] if numbered else None
     return w, specs, platform, seqs, indent, name
@@ -413,5 +453,7 @@ def specs(tier, seed, concrete=False):
         Spec("acl", h_acl, [{"acl": a, "indent": i} for a in ACLS for i in ("", " ", "  ", "    ")], goals=["acl"], describe="Acl from relation templates"),
         Spec("ace_group", h_ace_group, [{"acl": a} for a in ACLS], goals=["ace_group"], describe="AceGroup"),
         Spec("standard_acl", h_standard_acl, [{"lines": l} for l in STD_LINES], goals=["standard"], describe="standard ACLs"),
+        Spec("named_ports", h_named_ports, [{"cfg": list(c), "side": sd} for c in NAMED_CFG for sd in ("src", "dst")], goals=["named"],
+             describe="every port keyword of every table inside an ACE, by name and by number"),
         Spec("config", h_config, [{"acl": a, "platform": p} for a in ACLS[::2] for p in ("ios", "nxos")], goals=["config"], describe="acls()/addrgroups()"),
     ]
